@@ -290,6 +290,14 @@ func checkAbortAttribution(c *Ctx, r *Run) {
 							}
 						}
 					}
+					// the key under which the queued message was stored (store() files every message under its From)
+					if ek, isE := cv.(*ssa.Extract); isE && ek.Index == 1 {
+						if em, isM := m.(*ssa.Extract); isM && em.Index == 2 && em.Tuple == ek.Tuple {
+							if _, isNext := ek.Tuple.(*ssa.Next); isNext {
+								ok = true
+							}
+						}
+					}
 				}
 				r.Check("OB-B1", key+"|"+verifyCall.Call.StaticCallee().Name()+"-error@"+fn.Name()+siteIdx(call), c.Pos(call.Pos()), ok,
 					"a message that fails decoding/verification is attributed to its own sender (the From of the very message handed to "+verifyCall.Call.StaticCallee().Name()+")",
